@@ -48,6 +48,11 @@ Theorem C03_token_kinds :
 Proof. vm_compute; split; reflexivity. Qed.
 Theorem C03_keywords : keywords_gen = keywords_ref_named /\ keywords_starts_ok keywords_ref = true.
 Proof. vm_compute; split; reflexivity. Qed.
+(* the constant-pool limit ("Too many constants in one chunk.") is checked in make_constant only: it is the only
+   function of compiler.rs that inserts into the constant table (regenerated fact; the limit itself is outside the
+   parser model and is exercised by the constants-boundary texts of the driver) *)
+Theorem C03_constants_through_make_constant : constant_insertions_gen = constant_insertions_ref.
+Proof. vm_compute; reflexivity. Qed.
 Theorem C03_limits :
   YVGen.Consts.INTERPOLATION_DEPTH_MAX = N.of_nat Scanner.INTERPOLATION_DEPTH_MAX /\
   YVGen.Consts.LOCALS_MAX = N.of_nat Parser.LOCALS_MAX /\ YVGen.Consts.UPVALUES_MAX = N.of_nat Parser.UPVALUES_MAX.
@@ -140,6 +145,7 @@ Print Assumptions C03_precedence_order.
 Print Assumptions C03_token_kinds.
 Print Assumptions C03_keywords.
 Print Assumptions C03_limits.
+Print Assumptions C03_constants_through_make_constant.
 Print Assumptions C03_keyword_table.
 Print Assumptions C03_scan_progress.
 Print Assumptions C03_scan_eof_absorbing.
